@@ -139,7 +139,7 @@ Fixpoint dependencies (fuel : nat) (ts : list tref) : list string :=
   | S f => flat_map (fun t => tref_name t :: dependencies f (tref_params t)) ts
   end.
 
-Definition DEPTH := 64.
+Definition DEPTH := 240.
 
 Section Visit.
   Variable e : env.
